@@ -160,7 +160,7 @@ def run(ctx, res):
                 f"continue (the returned list object itself is handed back), state shared across rounds (cvr.sampled, "
                 f"contest.sample_threshold, assertion.proved), real NonnegMean tests through set_p_values; every history re-run "
                 f"all-redraw and all-continue; exhaustive: continuation from the selection of every/one smaller-or-equal size "
-                f"vector for every style pattern of <= {ctx.n(4, 5)} cards x 2 contests; non-trivial = selection grows between "
+                f"vector for every style pattern of <= 5 cards x 2 contests; non-trivial = selection grows between "
                 f"rounds and a later round continues")
     res.samples = [S.hist_case_json(c) for c in hcases[:3]]
     res.stats = stats
